@@ -26,7 +26,8 @@ import sys
 import time as _time
 from asyncio import events
 
-_OWN_TIMEOUT = os.path.join('asyncio', 'timeouts.py')
+# asyncio.timeout() and asyncio.TaskGroup cancel the task they are used in
+_OWN_CANCELS = (os.path.join('asyncio', 'timeouts.py'), os.path.join('asyncio', 'taskgroups.py'))
 
 
 class Wedged(Exception):
@@ -98,7 +99,7 @@ class VTask(asyncio.Task):
 
     def cancel(self, msg=None):
         ret = super().cancel(msg)
-        if sys._getframe(1).f_code.co_filename.endswith(_OWN_TIMEOUT):
+        if sys._getframe(1).f_code.co_filename.endswith(_OWN_CANCELS):
             # asyncio.timeout() used by the job itself, cancelling its own
             # task from inside: not a request made by anybody else
             return ret
